@@ -85,7 +85,11 @@ class Lexer:
             if ch == "\\":
                 # Escape sequence
                 escape = self._advance()
-                if escape == "n":
+                if escape in ("\n", "\r", "\u2028", "\u2029"):
+                    # LineContinuation: backslash + line terminator adds nothing
+                    if escape == "\r" and self._current() == "\n":
+                        self._advance()
+                elif escape == "n":
                     result.append("\n")
                 elif escape == "r":
                     result.append("\r")
